@@ -220,6 +220,17 @@ impl bpaf::__verif::World for Delegate {
         })
     }
 
+    fn flush(&mut self, fd: i32) -> Result<(), String> {
+        with(|s| {
+            if fd == 1 && !s.out.buffer.is_empty() {
+                let head = std::mem::take(&mut s.out.buffer);
+                s.out.raw_write(&head)
+            } else {
+                Ok(())
+            }
+        })
+    }
+
     fn exit(&mut self, code: i32) {
         with(|s| {
             s.exit = Some(code);
